@@ -1,4 +1,6 @@
 """C10 — the CLI writes the best replica, labelled with what was asked for."""
+import re
+
 from .. import tables as T
 from ..anchors import is_trait_call
 from ..cfg import CFG
@@ -71,6 +73,16 @@ def run(ctx):
               'the serialised value is not the result of ParallelIterator::max over the replicas (it comes from %s)'
               % (callee_name(red['term']) if red['o'] == 'call' else red['o']))
     if is_max:
+        # what `max` compares: the replica's state (whose Ord is the score order, R2) — or a wrapper whose ordering looks at the
+        # state FIRST (a tuple / a struct with derived lexicographic Ord and the state as first component; later components
+        # only break ties between equal scores)
+        ity = red['term']['dest'].get('ty', '')
+        m_ = re.match(r'^std::option::Option<(.*)>$', ity)
+        item_ty = m_.group(1) if m_ else ity
+        okt, whyt = _compares_state_first(f, item_ty)
+        rep.check(okt, 'R1', 'max-compares-the-score-first', where(b, red['bb']), whyt,
+                  'the reduction picks the maximum of %s, which does not order replicas by the score of their state first: %s'
+                  % (item_ty[:80], whyt))
         cands = nst.calls(lambda tt: tt['func'].get('fn') == 'pk::candidate')
         loops = nst.loops_around(cands[0][0]) if len(cands) == 1 else []
         lp = loops[0] if len(loops) == 1 else None
@@ -410,6 +422,37 @@ def _ordering(ctx):
                   'partial_cmp(a,b) = f64::partial_cmp(score(a), score(b))', why)
         rep.sample('%s: cmp = partial_cmp(self, other).unwrap(); partial_cmp = f64::partial_cmp(score(self)?, score(other)?)' % adt)
     rep.floor('R2', 'state types with a checked ordering', n, 2)
+
+
+def _is_state_ty(ty):
+    ty = (ty or '').replace('packing::', '').strip()
+    return ty.startswith('impl ') or ty in ('S', 'T') or 'State' in ty
+
+
+def _compares_state_first(f, item_ty):
+    item_ty = (item_ty or '').strip()
+    if _is_state_ty(item_ty) and not item_ty.startswith('('):
+        ti = f.type_info(item_ty)
+        if ti is None or not ti.get('local') or 'State' in (ti.get('path') or ''):
+            return True, 'max over the states themselves'
+    if item_ty.startswith('('):
+        from ..sroa import _tuple_field_ty
+        first = _tuple_field_ty(item_ty, 0)
+        if _is_state_ty(first):
+            return True, 'max over tuples whose first component is the state (lexicographic: the score decides first)'
+        return False, 'a tuple whose first component is %s' % first
+    ti = f.type_info(item_ty)
+    if ti and ti.get('local') and len(ti.get('variants') or []) == 1:
+        flds = ti['variants'][0]['fields']
+        base = f.norm(item_ty).split('<')[0]
+        ords = [im for im in f.impls if (im.get('trait') or '').endswith('cmp::Ord') and f.norm(im.get('self_adt') or '') == base]
+        if ords and all(im.get('derived') for im in ords):
+            if flds and _is_state_ty(flds[0]['ty']):
+                return True, 'derived Ord on %s compares its first field, the state, first' % base
+            return False, 'derived Ord on %s compares field `%s: %s` before the state' % (base, flds[0]['name'] if flds else '?',
+                                                                                          flds[0]['ty'] if flds else '?')
+        return False, 'a hand-written ordering on the wrapper %s (not analysed)' % base
+    return False, 'an item type this rule does not know'
 
 
 def _wyckoff_by_value(f, ws, agg):
